@@ -326,7 +326,17 @@ fn expand_enum(
     }
 
     let (bounds, match_arms) = e.variants.iter().try_fold(
-        (Vec::new(), TokenStream::new()),
+        (
+            // Bounds specified on the enum itself apply to the whole implementation.
+            container_attrs
+                .common
+                .bounds
+                .0
+                .clone()
+                .into_iter()
+                .collect::<Vec<_>>(),
+            TokenStream::new(),
+        ),
         |(mut bounds, mut arms), variant| {
             let mut attrs = ContainerAttributes::parse_attrs(&variant.attrs, attr_name)?
                 .map(Spanning::into_inner)
